@@ -85,12 +85,14 @@ def stepLine (st : DSt) : List String → DSt × String
     match mb.toNat?, bc.toNat? with
     | some mb, some bc =>
       let k := eff bc
-      let sp0 : Spec Line := match st.spec with
-        | some sp => if st.specK = k then sp else { segs := segsOf st.fs k }
-        | none => { segs := segsOf st.fs k }
+      -- the segment history is based on the directory as found at the first init after a
+      -- `pre`; specK = the smallest number of backups kept since then (theorems: `Keeps specK`)
+      let (sp0, kmin) : Spec Line × Nat := match st.spec with
+        | some sp => (sp, min st.specK k)
+        | none => ({ segs := segsOf st.fs k }, k)
       let (h, fs) := init len st.fs mb bc
       let sp := specStep len sp0 (.init mb bc)
-      ({ st with rh := h, fs := fs, spec := some sp, specK := k }, s!"ok {h.offset}")
+      ({ st with rh := h, fs := fs, spec := some sp, specK := kmin }, s!"ok {h.offset}")
     | _, _ => (st, "bad-op")
   | ["w", n] =>
     match n.toNat? with
@@ -108,13 +110,15 @@ def stepLine (st : DSt) : List String → DSt × String
     else if st.th.cur.isSome then ({ st with th := tclose st.th }, "ok")
     else (st, "bad-op")
   | ["ls"] => (st, lsLine st)
-  | ["view"] =>
-    let k := eff st.rh.backupCount
+  | "view" :: rest =>
+    let k := match rest with
+      | [ks] => ks.toNat?.getD (eff st.rh.backupCount)
+      | _ => eff st.rh.backupCount
     let m := viewLine k (((List.range k).reverse.map (fun i => cont (bget st.fs.bak (i + 1)))) ++
                          [cont st.fs.live])
     match st.spec with
     | some sp =>
-      if st.specK = k then
+      if k ≤ st.specK then
         -- the newest k+1 segments, oldest first, padded to k+1 entries
         let segs := (List.range (k + 1)).reverse.map (fun j => seg sp.segs j)
         (st, m ++ " | " ++ viewLine k segs)
